@@ -69,6 +69,7 @@ type PathState struct {
 	pbTokens  []*pbToken
 	pbArrays  map[*Array]*pbToken
 	tsTokens  map[*Term]Value
+	timeParts map[*Term]*tparts
 }
 
 // Results aggregates over all paths of one harness run (shared by workers).
@@ -576,7 +577,7 @@ type pathStats struct {
 
 // runPath executes the harness once along prefix.
 func (in *Interp) runPath(prefix []Decision) {
-	in.path = &PathState{prefix: prefix, known: map[*Term]bool{}, started: time.Now(), pbArrays: map[*Array]*pbToken{}, tsTokens: map[*Term]Value{}}
+	in.path = &PathState{prefix: prefix, known: map[*Term]bool{}, started: time.Now(), pbArrays: map[*Array]*pbToken{}, tsTokens: map[*Term]Value{}, timeParts: map[*Term]*tparts{}}
 	in.spec = nil
 	in.lastNow = nil
 	in.stats = pathStats{}
